@@ -98,7 +98,11 @@ def generate(job):
         if isinstance(v, dict) and (k.startswith("R_") or k.startswith("X")) and "J" in v and card.get("_kind") == "S3":
             J, P = rh.choice(JPS)
             v["J"], v["P"] = J, P
-    steps = [{"k": "load", "v": "plain"}]
+    steps = []
+    if rh.chance(0.5):
+        # other cards with the same particle names are loaded BEFORE the card is seen for the first time
+        steps += [{"k": "foreign", "v": "", "pos": 1} for _ in range(rh.randint(1, 2))]
+    steps.append({"k": "load", "v": "plain"})
     for _ in range(rh.randint(3, 8)):
         steps.append({"k": rh.weighted([("load", 3), ("variant", 5), ("foreign", 3), ("other", 1), ("fail", 1), ("export", 2)]), "v": rh.choice(["alias", "include_dict", "include_file", "permuted", "expanded"]), "pos": rh.randint(1, 400)})
     steps.append({"k": "load", "v": "plain"})
@@ -322,11 +326,18 @@ def execute(spec):
                             raise Failure()
                         log.count("probe.card_without_allowed_chain_refused")
                         break
+                    except Exception as e:
+                        import traceback
+
+                        tb = traceback.extract_tb(e.__traceback__)
+                        if "/verif/" in tb[-1].filename:
+                            raise
+                        log.fail("same-card-same-model", "load|raised|%s" % type(e).__name__, "loading the card raised %s: %s (after %d other loads)" % (type(e).__name__, str(e)[:200], between), step=i)
+                        raise Failure()
                     obs = observe(cfg)
                     nloads += 1
-                    if base_obs is None:
-                        base_obs, base_cfg = obs, cfg
-                        # ---- reference enumerator
+                    if True:
+                        # ---- reference enumerator (every load of the card, whatever was loaded before)
                         allowed_set, forbidden_set = ref_chains(card)
                         got = [frozenset((a, tuple(b)) for a, b in c) for c in obs["canon"]]
                         for s in allowed_set:
@@ -339,7 +350,11 @@ def execute(spec):
                                 raise Failure()
                         if forbidden_set:
                             log.count("probe.card_with_forbidden_chain")
+                    if base_obs is None:
+                        base_obs, base_cfg = obs, cfg
                         log.ev("base", obs=obs)
+                        if between:
+                            nontrivial = True
                     else:
                         if obs != base_obs:
                             diff = [kk for kk in obs if obs[kk] != base_obs[kk]]
